@@ -449,3 +449,94 @@ example :
     (step (runS s ops) (.install 1 ⟨⟨1, 9, 9⟩, 2, false⟩ [.all, .all, .all] [.D, .D, .D])).2 = .err .stale := by decide
 
 end WK.C04
+
+/-! ## T tie: the admission guards of Commit and the authority switch of Install -/
+namespace WK.C04
+open WK WK.Repl WK.Gen.C04
+
+/-- how the model reads the regenerated Commit guard chain -/
+def commitByGuards (s : Sys) (i : Nat) (nd : NodeSt) (ch : QChan) (expected : AuthId) (c : Nat) (cs : List Nat)
+    (acks : List Ack) : Sys × Res :=
+  let g := commitGuards ch.ready (decide (expected = ch.auth.id)) ch.auth.fenced
+  if g = "notready" then (s, .err .notready)
+  else if g = "stale" then (s, .err .stale)
+  else if g = "fenced" then (s, .err .fenced)
+  else if g = "pass" then commitAdmitted s i nd ch (Cmd.biz c) cs acks
+  else (s, .bad)
+
+/-- **c04_commit_guards_translated** — the admission guards of the model's `commit` ARE the guard chain
+    regenerated from quorumLog.Commit (between `defer state.mu.Unlock()` and the retained lookup):
+    for every valid request on an owner with a channel state the model's result is the regenerated
+    chain read through `commitByGuards`; and the regenerated chain lets through exactly a ready owner whose
+    authority is the expected one and not write-fenced. -/
+theorem c04_commit_guards_translated (s : Sys) (i : Nat) (expected : AuthId) (c : Nat) (cs : List Nat) (acks : List Ack)
+    (nd : NodeSt) (ch : QChan) (hn : s.node? i = some nd) (hc : nd.chan = some ch)
+    (hv : ¬ (expected = AuthId.zero ∨ c = 0 ∨ cs.length = 0 ∨ cs.length > 256)) :
+    commit s i expected c cs acks = commitByGuards s i nd ch expected c cs acks ∧
+    (∀ ready cur fenceSet, commitGuards ready cur fenceSet = "pass" ↔ (ready = true ∧ cur = true ∧ fenceSet = false)) := by
+  constructor
+  · simp only [commit, hn, hc, commitByGuards, commitGuards]
+    rw [if_neg hv]
+    cases hr : ch.ready <;> simp
+    by_cases he : expected = ch.auth.id <;> simp [he]
+    cases hf : ch.auth.fenced <;> simp
+  · intro r c f; cases r <;> cases c <;> cases f <;> decide
+
+/-- how the model reads the regenerated Install switch -/
+def decisionBySwitch (ch : QChan) (a : Authority) : Except Res QChan :=
+  let g := installSwitch (decide (ch.auth.id ≠ AuthId.zero)) (cmpAuth a.id ch.auth.id) (decide (a = ch.auth)) a.fenced ch.ready
+  if g = "stale" then .error (.err .stale)
+  else if g = "conflict" then .error (.err .conflict)
+  else if g = "fenced" then .error (.err .fenced)
+  else if g = "answer" then .error (.installed ch.auth.id ch.frontier.leo ch.hw)
+  else if g = "keep" then .ok ch
+  else if g = "fence" then .ok (fenceChan a)
+  else .error .bad
+
+/-- **c04_install_switch_translated** — the model's `installDecision` IS the authority switch
+    regenerated from quorumLog.Install (`if state.authority.ID != (AuthorityID{}) { switch
+    compareAuthorityID(authority.ID, state.authority.ID) … } else { fence }`); the regenerated switch
+    answers an older id `stale` whatever else holds and never lets a fenced equal authority through. -/
+theorem c04_install_switch_translated (ch : QChan) (a : Authority) :
+    installDecision (some ch) a = decisionBySwitch ch a ∧
+    installDecision none a = .ok (fenceChan a) ∧
+    (∀ same fenceSet ready, installSwitch true .lt same fenceSet ready = "stale") ∧
+    (∀ cmp same ready, installSwitch true cmp same true ready = "keep" → False) := by
+  refine ⟨?_, rfl, ?_, ?_⟩
+  · simp only [installDecision, decisionBySwitch, installSwitch]
+    by_cases hz : ch.auth.id = AuthId.zero
+    · simp [hz]
+    · simp only [hz, ne_eq, not_false_eq_true, if_true, decide_true]
+      cases cmpAuth a.id ch.auth.id <;> simp
+      by_cases hs : a = ch.auth
+      · subst hs; simp
+        cases ch.auth.fenced <;> simp
+        cases ch.ready <;> simp
+      · simp [hs]
+  · intro s f r; rfl
+  · intro c s r; cases c <;> cases s <;> cases r <;> decide
+
+/-- **c04_install_fence_translated** — the regenerated guard between the switch and recovery returns
+    `fenced` exactly for a write-fenced authority, where the model's `installRecover` stops before any
+    probe; and fenceQuorumChannel's regenerated assignments are the model's `fenceChan` (not ready,
+    hw 0, empty frontier, no pending, nothing retained). -/
+theorem c04_install_fence_translated (s : Sys) (i : Nat) (ch : QChan) (a : Authority) (ps : List PSpec) (acks : List Ack) :
+    (installPreRecovery a.fenced = "fenced" → installRecover s i ch a ps acks = (s, .err .fenced)) ∧
+    (installPreRecovery a.fenced = "recover" ↔ a.fenced = false) ∧
+    fenceAssigns = [("authority", "cloneAuthority(authority)"), ("frontier", "ReplicaState{}"), ("hw", "0"),
+      ("ready", "false"), ("pending", "nil"),
+      ("retained", "make(map[ch.CommandID]retainedProposal, retainedCapacity)"), ("order", "state.order[:0]")] ∧
+    fenceChan a = ⟨a, RState.zero, 0, false, none, []⟩ := by
+  refine ⟨?_, ?_, rfl, rfl⟩
+  · intro h
+    cases hf : a.fenced
+    · rw [hf] at h; exact absurd h (by decide)
+    · simp [installRecover, hf]
+  · cases a.fenced <;> decide
+
+/-- non-vacuity of the regenerated guards -/
+example : commitGuards true false false = "stale" ∧ commitGuards true true true = "fenced" ∧
+    installSwitch true .eq true false true = "answer" ∧ installSwitch true .gt false false true = "fence" ∧
+    installPreRecovery true = "fenced" := by decide
+
+end WK.C04
